@@ -189,8 +189,7 @@ def report(ctx, binary, registry, ops, tail, saves, what, detail, do_min=True):
 
 
 def run(ctx):
-    if os.path.exists(os.path.join(vlib.COQ if not vlib.SCRATCH else os.path.join(vlib.VERIF, "coq"), "Properties_C10.v")):
-        ctx.prove()
+    ctx.prove()
     okh, hs, hlog = vlib.build_harness(["h_store"])
     if not okh:
         ctx.broken.append("harness-build: " + hlog[-300:])
